@@ -206,6 +206,7 @@ def _parse_op(draw):
           'stmts': draw(st.lists(_stmt, min_size=2, max_size=7)),
           'cut': [draw(_small), draw(_small)],
           'observe': draw(st.booleans()),
+          'skip': draw(st.integers(0, 3)) == 0,
           'ambig': draw(st.none() | st.none() | st.tuples(_small, st.integers(0, 2)).map(list))}
 
 
@@ -554,8 +555,13 @@ def _define_constants(case, model, labels):
     raise OutOfDomain(f'unknown constant op {kind!r}')
 
 
-def _deliver(via, lines, cut, tmpdir, counter):
-  """Hands the text made of `lines` to Gin in the way `via` says."""
+def _deliver(via, lines, cut, tmpdir, counter, skip=False):
+  """Hands the text made of `lines` to Gin in the way `via` says.
+
+  With `skip`, the parse is made with skip_unknown=True: every name in these texts is known
+  (macro definitions bind the always-known gin.macro), so nothing may be skipped."""
+  kw = {'skip_unknown': True} if skip else {}
+
   def write(ls):
     path = os.path.join(tmpdir, f'f{next(counter)}.gin')
     with open(path, 'w') as f:
@@ -563,17 +569,17 @@ def _deliver(via, lines, cut, tmpdir, counter):
     return path
 
   if via == 'str':
-    gin.parse_config('\n'.join(lines) + '\n')
+    gin.parse_config('\n'.join(lines) + '\n', **kw)
   elif via == 'list':
-    gin.parse_config(list(lines))
+    gin.parse_config(list(lines), **kw)
   elif via == 'file':
-    gin.parse_config_file(write(lines))
+    gin.parse_config_file(write(lines), **kw)
   elif via == 'include':
-    gin.parse_config(f"include '{write(lines)}'\n")
+    gin.parse_config(f"include '{write(lines)}'\n", **kw)
   elif via == 'split':
     i, j = sorted((cut[0] % (len(lines) + 1), cut[1] % (len(lines) + 1)))
     path = write(lines[i:j])
-    gin.parse_config('\n'.join(lines[:i] + [f"include '{path}'"] + lines[j:]) + '\n')
+    gin.parse_config('\n'.join(lines[:i] + [f"include '{path}'"] + lines[j:]) + '\n', **kw)
   else:
     raise OutOfDomain(f'unknown delivery {via!r}')
 
@@ -658,7 +664,7 @@ def check_case(case):
             labels.add('use:nested')
           if in_key:
             labels.add('use:in-dict-key')
-      _deliver(op['via'], lines, op.get('cut', [0, 0]), tmpdir, fileno)
+      _deliver(op['via'], lines, op.get('cut', [0, 0]), tmpdir, fileno, skip=op.get('skip', False))
       labels.add('via:' + op['via'])
       if op['via'] in ('file', 'include', 'split'):
         labels.add('via:file-or-include')
